@@ -92,21 +92,20 @@ def stat? : Sexp → Option Stat
   | .list [.atom "percentile", q] => (rat? q).map .percentile
   | _ => none
 
-def tolerant : Stat → Bool
-  | .mean | .median | .percentile _ => true
-  | _ => false
+def dtype? : Sexp → Option DType
+  | .atom "f2" => some .f2 | .atom "f4" => some .f4 | .atom "f8" => some .f8
+  | .atom "i1" => some .i1 | .atom "i2" => some .i2 | .atom "i4" => some .i4 | .atom "i8" => some .i8
+  | .atom "u1" => some .u1 | .atom "u2" => some .u2 | .atom "u4" => some .u4 | .atom "u8" => some .u8
+  | .atom "b1" => some .b1
+  | _ => none
 
-def rabs (q : Rat) : Rat := if q < 0 then -q else q
+def dtypeName : DType → String
+  | .f2 => "f2" | .f4 => "f4" | .f8 => "f8" | .i1 => "i1" | .i2 => "i2" | .i4 => "i4" | .i8 => "i8"
+  | .u1 => "u1" | .u2 => "u2" | .u4 => "u4" | .u8 => "u8" | .b1 => "b1"
 
-/-- relative tolerance 1e-12 (absolute below 1) for the statistics that numpy computes with
-rounding (mean, median, percentile); exact equality otherwise. -/
-def closeVal (tol : Bool) (py exact : Val) : Bool :=
-  match py, exact with
-  | .fin a, .fin b =>
-    if tol then decide (rabs (a - b) ≤ (1 / 1000000000000 : Rat) * max 1 (rabs b)) else a == b
-  | a, b => a == b
-
-def dataFn (sh : List Nat) (flat : List Val) : Idx → Val := fun i => flat.getD (rowMajor sh i) .nan
+def dataFn (sh : List Nat) (flat : List Val) : Idx → Val :=
+  let arr := flat.toArray
+  fun i => arr.getD (rowMajor sh i) .nan
 
 def resultSexp (shape : List Nat) (cells : List Val) : Sexp :=
   .list [.atom "res", ofNats shape, .list (cells.map ofVal)]
@@ -117,11 +116,13 @@ def pyResult? : Sexp → Option (List Nat × List Val)
 
 def redFlags (nd : Nat) (axes : List Nat) : List Bool := (List.range nd).map fun d => axes.contains d
 
-def stepStat (args pyout : Sexp) : String :=
-  match args with
-  | .list [shE, dataE, selE, axisE, finE, posE, statE, viewE, nmaxE] =>
-    match shE.toNats?, vals? dataE, finE.toBool?, posE.toBool?, stat? statE, nmaxE.toNat? with
-    | some sh, some flat, some fin, some pos, some st, some nmax =>
+/-- `(sh data sel axis finite positive stat view nmax [dtype])`; the storage dtype (default `f8`)
+only restricts the values that may occur — the oracle never looks at it again. -/
+def stepStatD (shE dataE selE axisE finE posE statE viewE nmaxE : Sexp) (dtO : Option DType)
+    (pyout : Sexp) : String :=
+    match shE.toNats?, vals? dataE, finE.toBool?, posE.toBool?, stat? statE, nmaxE.toNat?, dtO with
+    | some sh, some flat, some fin, some pos, some st, some nmax, some dt =>
+      if !(flat.all dt.holds) then bad "value-not-in-dtype" else
       let data := dataFn sh flat
       let cfg : Cfg := ⟨st, fin, pos⟩
       -- view
@@ -155,22 +156,27 @@ def stepStat (args pyout : Sexp) : String :=
         | some (ak, red) =>
           let impl := implStat cfg sh data sel vk v ak red nmax
           let spec := specStat cfg sh data sel vk v red
-          let tol := tolerant st
-          let specCells := (allIdx spec.shape).map spec.cell
+          let specIdx := allIdx spec.shape
+          let specCells := specIdx.map spec.cell
+          -- the kept values of every cell of the specification (`spec.cell k = reduce st (vals k)`,
+          -- theorem `spec_cell_reduce`): the acceptance radius is computed from them
+          let specVals := specIdx.map fun k => specCellVals cfg sh data sel vk v red k
           let implCells := (allIdx impl.shape).map impl.cell
           let implok := impl.shape == spec.shape && implCells == specCells
           let py := pyResult? pyout
           let ok := match py with
             | some (psh, pcs) =>
-              psh == spec.shape && pcs.length == specCells.length &&
-                (pcs.zip specCells).all fun p => closeVal tol p.1 p.2
+              psh == spec.shape && pcs.length == specVals.length &&
+                (pcs.zip specVals).all fun p => specAccept st p.2 p.1
             | none => false
-          -- the model's prediction; for the rounded statistics a python value within tolerance
-          -- is echoed so that comparison (a) is the tolerance comparison
+          -- the model's prediction (exact arithmetic); where the model agrees with the specification
+          -- a python value that the specification accepts is echoed, so that comparison (a) is the
+          -- same acceptance rule
           let shown := match py with
             | some (psh, pcs) =>
-              if tol && psh == impl.shape && pcs.length == implCells.length then
-                (pcs.zip implCells).map fun p => if closeVal true p.1 p.2 then p.1 else p.2
+              if psh == impl.shape && impl.shape == spec.shape && pcs.length == implCells.length then
+                (pcs.zip (implCells.zip (specCells.zip specVals))).map fun p =>
+                  if p.2.1 == p.2.2.1 && specAccept st p.2.2.2 p.1 then p.1 else p.2.1
               else implCells
             | none => implCells
           let size := prod sh
@@ -197,10 +203,19 @@ def stepStat (args pyout : Sexp) : String :=
               else if !allStep1 v then "-bail"
               else if keptShape red vsh == [] then "-scalar"
               else if subShape (bbox vsh vm) == vsh then "-fullbox" else "-pad"
-          driverResult (resultSexp impl.shape shown) ok implok inP (if inP then br ++ br2 else br)
+          let pre := if dt == .f8 then "" else dtypeName dt ++ ":"
+          driverResult (resultSexp impl.shape shown) ok implok inP
+            (pre ++ (if inP then br ++ br2 else br))
         | none => bad "stat-axis"
       | _, _ => bad "stat-view-or-sel"
-    | _, _, _, _, _, _ => bad "stat-args"
+    | _, _, _, _, _, _, _ => bad "stat-args"
+
+def stepStat (args pyout : Sexp) : String :=
+  match args with
+  | .list [shE, dataE, selE, axisE, finE, posE, statE, viewE, nmaxE] =>
+    stepStatD shE dataE selE axisE finE posE statE viewE nmaxE (some .f8) pyout
+  | .list [shE, dataE, selE, axisE, finE, posE, statE, viewE, nmaxE, dtE] =>
+    stepStatD shE dataE selE axisE finE posE statE viewE nmaxE (dtype? dtE) pyout
   | _ => bad "stat-arity"
 
 /-! ### histogram -/
@@ -211,15 +226,19 @@ def powerset {α} : List α → List (List α)
 
 def dedupRat (xs : List Rat) : List Rat := xs.foldl (fun acc x => if acc.contains x then acc else acc ++ [x]) []
 
-def stepHist (args pyout : Sexp) : String :=
-  match args with
-  | .list [shE, dataE, wE, selE, r0E, r1E, nE, logE] =>
-    match shE.toNats?, vals? dataE, rat? r0E, rat? r1E, nE.toNat?, logE.toBool? with
-    | some sh, some flat, some r0, some r1, some n, some lg =>
+/-- `(sh data weights sel r0 r1 bins log [(xdtype wdtype)])`; the storage dtypes (default `f8`) only
+restrict the values that may occur. -/
+def stepHistD (shE dataE wE selE r0E r1E nE logE : Sexp) (dtO : Option (DType × DType))
+    (pyout : Sexp) : String :=
+    match shE.toNats?, vals? dataE, rat? r0E, rat? r1E, nE.toNat?, logE.toBool?, dtO with
+    | some sh, some flat, some r0, some r1, some n, some lg, some (xdt, wdt) =>
+      if !(flat.all xdt.holds) then bad "value-not-in-dtype" else
       let data := dataFn sh flat
       let wO : Option (List Rat) := match wE with
         | .atom "N" => some (flat.map fun _ => 1)
-        | e => do (← e.toList?).mapM rat?
+        | e => do
+          let ws ← (← e.toList?).mapM rat?
+          if ws.all fun w => wdt.holds (.fin w) then some ws else none
       let selO : Option (Idx → Bool) := match selE with
         | .atom "N" => some fun _ => true
         | e => (sel? e).map fun s => s.eval sh data
@@ -256,7 +275,8 @@ def stepHist (args pyout : Sexp) : String :=
           let shown := match py with
             | some b => if !edgeVals.isEmpty && adm then b else model
             | none => model
-          let br := (if lg then "log" else "lin") ++
+          let br := (if xdt == .f8 && wdt == .f8 then "" else dtypeName xdt ++ "." ++ dtypeName wdt ++ ":") ++
+            (if lg then "log" else "lin") ++
             (if kept.isEmpty then "-nokept" else if !logOk then "-negrange"
              else if !edgeVals.isEmpty then "-edge" else if lo == hi then "-zerowidth"
              else if !inP then "-nearedge" else "")
@@ -266,8 +286,62 @@ def stepHist (args pyout : Sexp) : String :=
             .list [.atom "tot", ofBool tot], .list [.atom "bin", ofBool perbin],
             .list [.atom "adm", ofBool adm]])
       | _, _ => bad "hist-weights-or-sel"
-    | _, _, _, _, _, _ => bad "hist-args"
+    | _, _, _, _, _, _, _ => bad "hist-args"
+
+def stepHist (args pyout : Sexp) : String :=
+  match args with
+  | .list [shE, dataE, wE, selE, r0E, r1E, nE, logE] =>
+    stepHistD shE dataE wE selE r0E r1E nE logE (some (.f8, .f8)) pyout
+  | .list [shE, dataE, wE, selE, r0E, r1E, nE, logE, .list [xd, wd]] =>
+    stepHistD shE dataE wE selE r0E r1E nE logE (do some (← dtype? xd, ← dtype? wd)) pyout
   | _ => bad "hist-arity"
+
+/-- `(hist2 (sh xdata ydata weights sel rx0 rx1 ry0 ry1 nx ny logx logy) pyout)`: 2-d histogram, cells
+row-major.  Log ranges must be strictly positive (modelled domain). -/
+def stepHist2 (args pyout : Sexp) : String :=
+  match args with
+  | .list [shE, xE, yE, wE, selE, rx0E, rx1E, ry0E, ry1E, nxE, nyE, lxE, lyE] =>
+    match shE.toNats?, vals? xE, vals? yE, rat? rx0E, rat? rx1E, rat? ry0E, rat? ry1E with
+    | some sh, some xflat, some yflat, some rx0, some rx1, some ry0, some ry1 =>
+      match nxE.toNat?, nyE.toNat?, lxE.toBool?, lyE.toBool? with
+      | some nx, some ny, some lx, some ly =>
+        let xdata := dataFn sh xflat
+        let wO : Option (List Rat) := match wE with
+          | .atom "N" => some (xflat.map fun _ => 1)
+          | e => do (← e.toList?).mapM rat?
+        let selO : Option (Idx → Bool) := match selE with
+          | .atom "N" => some fun _ => true
+          | e => (sel? e).map fun s => s.eval sh xdata
+        let xlo := min rx0 rx1; let xhi := max rx0 rx1
+        let ylo := min ry0 ry1; let yhi := max ry0 ry1
+        if (lx && xlo ≤ 0) || (ly && ylo ≤ 0) then bad "hist2-log-range-not-positive" else
+        match wO, selO with
+        | some ws, some m =>
+          let idxs := allIdx sh
+          let xs : List (Val × Val × Rat) := ((idxs.zip (xflat.zip (yflat.zip ws))).filterMap fun p =>
+            if m p.1 then some p.2 else none)
+          let kept := hist2Keep xlo xhi ylo yhi xs
+          let total := specHist2Total rx0 rx1 ry0 ry1 xs
+          let spec := specHist2 rx0 rx1 ry0 ry1 nx ny lx ly xs
+          let model := implHist2 rx0 rx1 ry0 ry1 nx ny lx ly xs
+          let inP := kept.isEmpty ||
+            (axisClean xlo xhi nx lx (kept.map (·.1)) && axisClean ylo yhi ny ly (kept.map (·.2.1)))
+          let py : Option (List Rat) := do (← pyout.toList?).mapM rat?
+          let (tot, perbin) := match py with
+            | some b => (b.length == nx * ny && b.sum == total, b == spec)
+            | none => (false, false)
+          let ok := tot && perbin
+          let implok := model.sum == total && (!inP || model == spec)
+          let br := (if lx then "log" else "lin") ++ "-" ++ (if ly then "log" else "lin") ++
+            (if kept.isEmpty then "-nokept" else if !inP then "-edge" else "")
+          Sexp.toString (Sexp.list [.atom "r", .list [.atom "impl", .list (model.map ofRat)],
+            .list [.atom "ok", ofBool ok], .list [.atom "implok", ofBool implok],
+            .list [.atom "p", ofBool inP], .list [.atom "br", .atom br],
+            .list [.atom "tot", ofBool tot], .list [.atom "bin", ofBool perbin]])
+        | _, _ => bad "hist2-weights-or-sel"
+      | _, _, _, _ => bad "hist2-args"
+    | _, _, _, _, _, _, _ => bad "hist2-args"
+  | _ => bad "hist2-arity"
 
 def step (line : String) : String :=
   match Sexp.parse line with
@@ -275,6 +349,7 @@ def step (line : String) : String :=
   | some (.list [.atom "prof", args, pyout]) => stepStat args pyout
   | some (.list [.atom "hist", args, pyout]) => stepHist args pyout
   | some (.list [.atom "histstate", args, pyout]) => stepHist args pyout
+  | some (.list [.atom "hist2", args, pyout]) => stepHist2 args pyout
   | _ => bad "unknown-family"
 
 def main : IO Unit := driverLoop step
